@@ -23,6 +23,10 @@ VLam(m, p)   == [k |-> "Lambda", op |-> "", i |-> <<>>, fn |-> <<m, p>>]       \
 VLamInt      == [k |-> "Lambda", op |-> "concat", i |-> <<>>, fn |-> <<>>]
 Crash(site, v) == [k |-> "CRASH", op |-> site, i |-> <<>>, fn |-> <<v.k, v.op, "">>]
 Located(what) == [k |-> "ERROR", op |-> what, i |-> <<>>, fn |-> <<>>]
+\* number literals keep their text (in `op`); as an HTTP status only 100..599 are in the domain - the literals the
+\* families and the generator use are listed, every other number is outside
+StatusTexts == {"100", "101", "200", "201", "202", "204", "301", "302", "304", "400", "401", "403", "404", "409", "422", "500", "501", "503", "599"}
+StatusInDomain(v) == v.k # "Number" \/ v.op \in StatusTexts
 Diverge      == [k |-> "DIVERGE", op |-> "", i |-> <<>>, fn |-> <<>>]
 
 RECURSIVE Deref0(_)
@@ -78,6 +82,7 @@ EvAll(ctx, m, nd, p, idxs, env, stack, fuel) ==
                    [] OTHER -> TRUE
        IN IF Bad(v) THEN v
           ELSE IF ~ok THEN CrashIn("cast_" \o c[2], v, m)
+          ELSE IF c[2] = "status" /\ ~StatusInDomain(Deref(v)) THEN Located("status-domain")         \* cast_http_status: a located error
           ELSE EvAll(ctx, m, nd, p, Tail(idxs), env, stack, fuel)
 
 Ev(ctx, m, p, env, stack, fuel) ==
@@ -87,7 +92,7 @@ Ev(ctx, m, p, env, stack, fuel) ==
       all(idxs, result) == LET r == EvAll(ctx, m, nd, p, idxs, env, stack, fuel - 1) IN IF Bad(r) THEN r ELSE result
       kids(cast) == [j \in 1..Len(nd.a) |-> <<j, cast>>]
   IN
-  CASE nd.k = "lit"  -> Vt(CASE nd.s = "num" -> "Number" [] nd.s = "str" -> "String" [] OTHER -> "HttpStatus")
+  CASE nd.k = "lit"  -> IF nd.s = "num" THEN [Vt("Number") EXCEPT !.op = nd.q] ELSE Vt(IF nd.s = "str" THEN "String" ELSE "HttpStatus")
     [] nd.k = "prim" -> IF nd.s = "uri" THEN Vt("Uri") ELSE Vt("Prim")
     [] nd.k = "obj"  -> all(kids("property"), Vt("Object"))
     [] nd.k = "prop" -> all(<<<<1, "schema">>>>, Vt("Property"))
